@@ -369,7 +369,9 @@ def _sp_post(ctx):
         return
     base = os.path.splitext(os.path.basename(wavFN))[0]
     case = {"call": "split", "width": width, "rate": rate, "samples": model, "doc": {"xmin": doc["xmin"], "xmax": doc["xmax"], "tiers": [dict(t, entries=[list(e) for e in t["entries"]]) for t in doc["tiers"]]},
-            "tier": tierName, "flag": flag, "style": style, "nopart": nopart, "sil": sil}
+            "tier": tierName, "flag": flag, "style": style, "nopart": nopart, "sil": sil, "wavname": os.path.basename(wavFN)}
+    if base not in ("rec0", "rec1", "src"):
+        REC.cls("C17:split:unusual-file-name")
     classes = ["C17:split:nameStyle:%s" % style]
     if flag is True:
         classes.append("C17:split:tg-true")
@@ -570,7 +572,9 @@ def workload(tier, rng, shard, nshards, work):
                 call(gen_.generateSineWave, d, rng.choice([50, 200, 441]), rng.choice([None, 100, 1]))
         n2 = (300 if tier == "quick" else 10000) // nshards
         for k in range(n2):
-            fn, width, rate, n, samples = make_wav(rng, work, "rec%d.wav" % (k % 2), n=rng.randrange(60, 400))
+            # (recordings are named by people: blanks, percent signs, several dots)
+            wavname = ("rec%d.wav" % (k % 2)) if k % 5 else rng.choice(["take 2.wav", "50%done.wav", "a.b.c.wav", "x_%s.wav", "100%%.wav"])
+            fn, width, rate, n, samples = make_wav(rng, work, wavname, n=rng.randrange(60, 400))
             dur = n / rate
             from praatio.data_classes.textgrid import Textgrid
 
@@ -617,7 +621,7 @@ def replay(v, work):
     c = v["case"]
     with contextlib.redirect_stdout(io.StringIO()):
         if "samples" in c:
-            fn = os.path.join(str(work), "src.wav")
+            fn = os.path.join(str(work), c.get("wavname") or "src.wav")
             wf = wave.open(fn, "w")
             wf.setparams((1, c["width"], c["rate"], len(c["samples"]), "NONE", "not compressed"))
             wf.writeframes(W.encode(c["samples"], c["width"]))
